@@ -209,6 +209,9 @@ func TestVerifC07(t *testing.T) {
 			}
 			if p.iv == 1 {
 				n.Gw, n.Gi, n.Ri = time.Duration(level+1)*time.Second, time.Duration(level+1)*time.Minute, time.Duration(level+1)*time.Hour
+				if level == 1 {
+					n.Gw, n.GwZero = 0, true // the child overrides group_wait with an explicit 0s
+				}
 			}
 			switch p.lb {
 			case 1:
